@@ -98,8 +98,16 @@ class Probe(SourceProxy):
             return Total(sel, close=self._make_emitter(sel))
 
     def _install_tooling(self):
-        for selector in self._selectors:
-            autotool(selector)
+        installed = []
+        try:
+            for selector in self._selectors:
+                autotool(selector)
+                installed.append(selector)
+        except Exception:
+            # Refused activation must not leave earlier selectors tooled
+            for selector in installed:
+                autotool(selector, undo=True)
+            raise
 
     def _uninstall_tooling(self):
         for selector in self._selectors:
